@@ -57,9 +57,16 @@ Section WithOracle.
   (* k3.public is the 49-byte compressed form only *)
   Definition compressed_tag (bs : bytes) : bool :=
     match bs with b :: _ => N.eqb (b2n b) 2 || N.eqb (b2n b) 3 | [] => false end.
+  (* `if bytes.len() != 49 || !matches!(bytes[0], 0x02 | 0x03)`: the index panics on an empty slice; only the
+     short-circuit of `||` keeps it from being evaluated then (a live Panic branch: NoPanic.key_decode_no_panic) *)
   Definition v3_decode_public (bs : bytes) : result bytes :=
-    if negb (Nat.eqb (length bs) 49) || negb (compressed_tag bs) then Err InvalidKey else
-    match p384_parse O bs with Some pk => Ok pk | None => Err InvalidKey end.
+    if negb (Nat.eqb (length bs) 49) then Err InvalidKey else
+    match bs with
+    | [] => Panic "paseto-v3/public.rs decode: bytes[0] on an empty slice"
+    | _ :: _ =>
+        if negb (compressed_tag bs) then Err InvalidKey else
+        match p384_parse O bs with Some pk => Ok pk | None => Err InvalidKey end
+    end.
   Definition v3_decode_secret (bs : bytes) : result bytes :=
     if negb (Nat.eqb (length bs) 48) then Err InvalidKey else
     match p384_pk O bs with Some _ => Ok bs | None => Err InvalidKey end.
